@@ -12,7 +12,7 @@ import (
 func init() {
 	register(&Property{
 		ID:          "C19",
-		Explanation: "Decides structural necessary conditions of 'the metafile is an exact account' (not the exactness of every byte attribution): R1 the routine that counts final bytes for the metafile (accurateFinalByteCount) and the routine that produces them (substituteFinalPaths) — which the code comment says must match — handle the same piece kinds, derive each substituted path through the same call sequence, and the content call site passes the same path function with the same base directory that the count uses; R2 every graph.OutputFile constructed in bundler/linker carries a metafile chunk, and generateMetadataJSON walks the very slice of output files that Compile returns; metafile loop ordering is covered by C08/R1. R4 metafile-reads-final-record: metafile text generated from an import record is generated after the last rewrite of the fields it reports. R5 omit-predicate-siblings: the attribution record is made only where OmitFromSourceMapsAndMetafile is false; the inputs list tests the same flag. R6 range-self-mutation: the C08/R11 analysis (the loop that makes the per-input metafile chunks does not add to the table it ranges over). R7 import-kind-matches-printed-form: the kind passed to printPath is a constant (or phi of constants) that agrees with the keyword printed before it on every path. R8 exports-list-from-emitted-aliases: the writer of a JS chunk's exports reads SortedAndFilteredExportAliases and does not range over ResolvedExports. R9 substituted-paths-json-escaped: the metafile path callback of substituteFinalPaths returns text derived from helpers.QuoteForJSON. R10 inputs-keyed-once: every bytesInOutput writer ranges over a list its parent appends to only under a failed comma-ok lookup. NOT covered: per-input byte attribution inside a chunk, import/export lists.",
+		Explanation: "Decides structural necessary conditions of 'the metafile is an exact account' (not the exactness of every byte attribution): R1 the routine that counts final bytes for the metafile (accurateFinalByteCount) and the routine that produces them (substituteFinalPaths) — which the code comment says must match — handle the same piece kinds, derive each substituted path through the same call sequence, and the content call site passes the same path function with the same base directory that the count uses; R2 every graph.OutputFile constructed in bundler/linker carries a metafile chunk, and generateMetadataJSON walks the very slice of output files that Compile returns; metafile loop ordering is covered by C08/R1. R4 metafile-reads-final-record: metafile text generated from an import record is generated after the last rewrite of the fields it reports. R5 omit-predicate-siblings: the attribution record is made only where OmitFromSourceMapsAndMetafile is false; the inputs list tests the same flag. R6 range-self-mutation: the C08/R11 analysis (the loop that makes the per-input metafile chunks does not add to the table it ranges over). R7 import-kind-matches-printed-form: the kind passed to printPath is a constant (or phi of constants) that agrees with the keyword printed before it on every path. R8 exports-list-from-emitted-aliases: the writer of a JS chunk's exports reads SortedAndFilteredExportAliases and does not range over ResolvedExports. R9 substituted-paths-json-escaped: the metafile path callback of substituteFinalPaths returns text derived from helpers.QuoteForJSON. R10 inputs-keyed-once: every bytesInOutput writer ranges over a list its parent appends to only under a failed comma-ok lookup. R11 input-size-from-unmodified-contents: no self-derived store into source.Contents reaches the copy into InputFile.Source in parseFile. NOT covered: per-input byte attribution inside a chunk, import/export lists.",
 		Run: func(p *Prog, tier string) []*RuleResult {
 			return []*RuleResult{c19Siblings(p), c19EveryOutputListed(p), c19TemplateOnly(p), c19MetafileFinalRecord(p), c19OmitPredicate(p), renamed(c08RangeSelfMutation(p), "C19/R6 range-self-mutation", "the loop that creates the per-input metafile chunks ranges over the scanner's result table; a result it adds to that table while ranging gets a second chunk whenever its cached index lies inside the range, and the input is then listed twice (same analysis as C08/R11)"), c19KindMatchesForm(p), c19ExportsFromEmittedAliases(p), c19SubstitutedPathsEscaped(p), c19InputsKeyedOnce(p), c19InputSizeUnmodified(p)}
 		},
